@@ -172,3 +172,60 @@ def standard_run(pid, tier, seed, plan):
     chk.cov["rule"] = plan.get("rule", "")
     chk.assumptions += plan.get("assumptions", [])
     return chk.finish()
+
+
+# ---------------------------------------------------------------- C08 (lock discipline) corpus
+class _NoChk:
+    """generate() only needs add_tlc; spec-level problems still raise InfraError."""
+    def add_tlc(self, name, res, expect_ok=True):
+        if res.error or (expect_ok and res.violation):
+            raise vkit.InfraError("TLC %s: %s %s\n%s" % (name, res.error, res.violation, res.raw[-2000:]))
+
+
+LOCK_ACTS = {"add", "prepend", "addref", "addbufref", "addfile", "addfilebad", "rmbuf", "addbuf", "prependbuf", "drain", "remove",
+             "pullup", "readln", "rescommit", "expand", "evwrite", "evread", "sfwrite", "cbadd", "cbdel", "cbscript"}
+
+
+def lock_scenarios(seed, quick=True, workers=4):
+    """Corpus for C08 (lock discipline of evbuffers).  Returns (exe, scenarios): exe = the evbuffer driver, scenarios =
+    [{"cfg": {...}, "h": [call, ...]}, ...] ready for vkit.run_driver(exe, scenarios, env={"VERIF_LOCKTRACE": prefix}).
+    With $VERIF_LOCKTRACE set the driver installs harness/lockrec.h, calls evbuffer_enable_locking(buf, NULL) on every
+    evbuffer, emits Reset(cfg["sid"]) per scenario and Enter/Return(<call name>) around every call, "observe" around the
+    query battery and "teardown" around the final frees.  cfg["lockcb"]=1 additionally brackets evbuffer change callbacks and
+    reference / segment cleanup callbacks with CbEnter/CbExit (off by default: the library runs them under the evbuffer's own
+    recursive lock by design, which Locks.tla's CallbackUnlocked rule rejects).
+    Contents: exhaustive 2-call histories over file segments whose lazy materialisation fails (fd closed, write-only fd,
+    truncated file; mmap and read paths), good segments, references, add_buffer_reference, remove_buffer; random histories
+    over 21 call kinds with callbacks (incl. callbacks that modify their buffer); and, for a sample of histories, one run per
+    n with the n-th allocation inside the library failing."""
+    import random
+    rnd = random.Random(seed)
+    exe = build()
+    nochk = _NoChk()
+    scen = []
+    c1 = consts({"addfilebad", "addfile", "addref", "addbufref", "rmbuf", "drain"}, 2, wa=37, wb=331, data=("bLa",), nsel=(1, 9))
+    h1 = generate(nochk, "C08_evb_exh", c1, workers=workers)
+    h1 = [h for h in h1 if any(s["a"] in ("addfilebad", "addfile") for s in h)]
+    if len(h1) > (150 if quick else 600):
+        h1 = rnd.sample(h1, 150 if quick else 600)
+    scen += [{"cfg": drv_cfg(c1), "h": strip_obs(h)} for h in h1]
+    c2 = consts(LOCK_ACTS, 14 if quick else 24, wa=331, wb=1021, data=("a", "aCL", "bLa"), nsel=(1, 2, 9), sizes=(0, 2000), maxlen=8, cbmode=1)
+    h2 = generate(nochk, "C08_evb_rand", c2, simulate=(20 if quick else 150), depth=80, seed=seed, workers=workers)
+    scen += [{"cfg": drv_cfg(c2), "h": strip_obs(h)} for h in h2]
+    c3 = consts((LOCK_ACTS - {"cbscript"}) | {"loop"}, 12 if quick else 20, wa=37, wb=4099, data=("a", "bLa"), nsel=(1, 9), sizes=(2000,), maxlen=8, cbmode=2)
+    h3 = generate(nochk, "C08_evb_rand_def", c3, simulate=(8 if quick else 60), depth=80, seed=seed + 1, workers=workers)
+    scen += [{"cfg": drv_cfg(c3), "h": strip_obs(h)} for h in h3]
+    if not any(s["a"] == "addfilebad" for sc in scen for s in sc["h"]):
+        raise vkit.InfraError("lock corpus lacks failing segment materialisation")
+    # allocation faults: count the allocations of a sample of scenarios (plain run), then one scenario per n (sampled)
+    base = rnd.sample(scen, min(len(scen), 40 if quick else 300))
+    outs = vkit.run_driver(exe, base)
+    af = []
+    for sc, o in zip(base, outs):
+        n_alloc = int(o.get("allocs", 0)) if isinstance(o, dict) else 0
+        ns = list(range(1, n_alloc + 1))
+        if len(ns) > (6 if quick else 25):
+            ns = sorted(rnd.sample(ns, 6 if quick else 25))
+        for n in ns:
+            af.append({"cfg": dict(sc["cfg"], failn=n), "h": sc["h"]})
+    return exe, scen + af
